@@ -101,73 +101,92 @@ theorem abs_fresh {st : St} (h : Inv st) (t : Nat) : abs st t st.next = none := 
   | none => rfl
   | some r => exact absurd (h.fresh st.next (by rw [hg]; simp)) (Nat.lt_irrefl _)
 
-theorem step_ok {st : St} (h : Inv st) (op : Op) (hc : stepClean st op = true) :
-    Inv (step st op).1 ∧ abs (step st op).1 = specStep (abs st) st.next op ∧
+theorem nameUsed_iff {st : St} (h : Inv st) (name : Key) (ex : Option Nat) :
+    nameUsed st.rows name ex = true ↔ NameUsed (abs st) name ex := by
+  unfold nameUsed NameUsed
+  simp only [List.any_eq_true, Bool.and_eq_true, decide_eq_true_eq]
+  constructor
+  · rintro ⟨e, hm, hn, hx⟩
+    have hg : st.rows.get e.1 = some e.2 := (mem_iff_get _ h.nodup e.1 e.2).1 hm
+    exact ⟨e.2.org, e.1, (e.2.name, e.2.pager, e.2.slack), by simp [abs, hg], hn, hx⟩
+  · rintro ⟨t, id, v, hs, hn, hx⟩
+    unfold abs at hs
+    cases hg : st.rows.get id with
+    | none => simp [hg] at hs
+    | some r =>
+      simp only [hg] at hs
+      by_cases e : r.org = t
+      · simp only [e, if_true, Option.some.injEq] at hs
+        refine ⟨(id, r), (mem_iff_get _ h.nodup id r).2 hg, ?_, hx⟩
+        rw [← hs] at hn; exact hn
+      · simp [e] at hs
+
+theorem step_ok {st : St} (h : Inv st) (op : Op) (hc : stepOwn st op = true) :
+    Inv (step st op).1 ∧ abs (step st op).1 = specNext (abs st) op (step st op).2 ∧
     OutOk (abs st) st.next op (step st op).2 := by
   cases op with
   | create t name pager slack =>
-    simp only [stepClean, Bool.not_eq_true'] at hc
-    simp only [step, hc, Bool.false_eq_true, if_false]
-    refine ⟨⟨keys_put_nodup _ _ _ h.nodup, ?_⟩, ?_, by simp [OutOk]⟩
-    · intro id hid
-      simp only [get_put] at hid
-      by_cases e : id = st.next
-      · rw [e]; exact Nat.lt_succ_self _
-      · simp only [e, if_false] at hid; exact Nat.lt_succ_of_lt (h.fresh id hid)
-    · funext t' id
-      simp only [specStep, Spec.set]
-      by_cases hid : id = st.next
-      · subst hid
-        by_cases ht : t' = t
-        · subst ht; simp [abs, get_put]
-        · have ht2 : ¬ (t = t') := fun e => ht e.symm
-          simp only [ht, false_and, if_false]
-          rw [abs_fresh h]
-          simp [abs, get_put, ht2]
-      · simp [abs, get_put, hid]
-  | update t id name pager slack =>
-    simp only [stepClean] at hc
     simp only [step]
-    cases hg : st.rows.get id with
-    | none =>
-      have hn : abs st t id = none := by simp [abs, hg]
-      exact ⟨h, by simp [specStep, Spec.update, hn], by simp [OutOk, Spec.update, hn]⟩
-    | some r =>
-      simp only [hg, Bool.and_eq_true, decide_eq_true_eq, Bool.not_eq_true', Bool.or_eq_true,
-        List.isEmpty_iff] at hc
-      obtain ⟨⟨horg, hname⟩, hsl⟩ := hc
-      have hn : abs st t id = some (r.name, r.pager, r.slack) := by simp [abs, hg, horg]
-      have hslack : (if slack = [] then r.slack else slack) = slack := by
-        by_cases e : slack = []
-        · simp only [e, if_true]
-          rcases hsl with h1 | h1
-          · simp [e] at h1
-          · exact h1
-        · simp [e]
-      simp only [hname, Bool.false_eq_true, if_false, hslack]
-      refine ⟨⟨keys_put_nodup _ _ _ h.nodup, ?_⟩, ?_, by simp [OutOk, Spec.update, hn]⟩
-      · intro id' hid
+    by_cases hu : nameUsed st.rows name none = true
+    · simp only [hu, if_true]
+      exact ⟨h, rfl, Or.inr ⟨(nameUsed_iff h name none).1 hu, rfl⟩⟩
+    · simp only [hu, Bool.false_eq_true, if_false]
+      refine ⟨⟨keys_put_nodup _ _ _ h.nodup, ?_⟩, ?_, Or.inl ⟨fun hn => hu ((nameUsed_iff h name none).2 hn), rfl⟩⟩
+      · intro id hid
         simp only [get_put] at hid
-        by_cases e : id' = id
-        · rw [e]; exact h.fresh id (by rw [hg]; simp)
-        · simp only [e, if_false] at hid; exact h.fresh id' hid
-      · funext t' id'
-        simp only [specStep, Spec.update, hn, Spec.set]
-        by_cases hid : id' = id
+        by_cases e : id = st.next
+        · rw [e]; exact Nat.lt_succ_self _
+        · simp only [e, if_false] at hid; exact Nat.lt_succ_of_lt (h.fresh id hid)
+      · funext t' id
+        simp only [specNext, Spec.set]
+        by_cases hid : id = st.next
         · subst hid
           by_cases ht : t' = t
           · subst ht; simp [abs, get_put]
           · have ht2 : ¬ (t = t') := fun e => ht e.symm
-            have ht3 : ¬ (r.org = t') := fun e => ht (by rw [← e, horg])
-            simp [abs, get_put, ht, ht2, hg, ht3]
+            simp only [ht, false_and, if_false]
+            rw [abs_fresh h]
+            simp [abs, get_put, ht2]
         · simp [abs, get_put, hid]
-  | delete t id =>
-    simp only [stepClean] at hc
+  | update t id name pager slack =>
+    simp only [stepOwn] at hc
     simp only [step]
     cases hg : st.rows.get id with
     | none =>
       have hn : abs st t id = none := by simp [abs, hg]
-      exact ⟨h, by simp [specStep, Spec.delete, hn], by simp [OutOk, Spec.delete, hn]⟩
+      exact ⟨h, rfl, Or.inl ⟨hn, rfl⟩⟩
+    | some r =>
+      simp only [hg, decide_eq_true_eq] at hc
+      have hn : abs st t id = some (r.name, r.pager, r.slack) := by simp [abs, hg, hc]
+      have hne : abs st t id ≠ none := by rw [hn]; simp
+      by_cases hu : nameUsed st.rows name (some id) = true
+      · simp only [hu, if_true]
+        exact ⟨h, rfl, Or.inr (Or.inr ⟨hne, (nameUsed_iff h name (some id)).1 hu, rfl⟩)⟩
+      · simp only [hu, Bool.false_eq_true, if_false]
+        refine ⟨⟨keys_put_nodup _ _ _ h.nodup, ?_⟩, ?_,
+          Or.inr (Or.inl ⟨hne, fun hx => hu ((nameUsed_iff h name (some id)).2 hx), rfl⟩)⟩
+        · intro id' hid
+          simp only [get_put] at hid
+          by_cases e : id' = id
+          · rw [e]; exact h.fresh id (by rw [hg]; simp)
+          · simp only [e, if_false] at hid; exact h.fresh id' hid
+        · funext t' id'
+          simp only [specNext, Spec.set]
+          by_cases hid : id' = id
+          · subst hid
+            by_cases ht : t' = t
+            · subst ht; simp [abs, get_put]
+            · have ht2 : ¬ (t = t') := fun e => ht e.symm
+              have ht3 : ¬ (r.org = t') := fun e => ht (by rw [← e, hc])
+              simp [abs, get_put, ht, ht2, hg, ht3]
+          · simp [abs, get_put, hid]
+  | delete t id =>
+    simp only [stepOwn] at hc
+    simp only [step]
+    cases hg : st.rows.get id with
+    | none =>
+      have hn : abs st t id = none := by simp [abs, hg]
+      exact ⟨h, by simp [specNext], by simp [OutOk, Spec.delete, hn]⟩
     | some r =>
       simp only [hg, decide_eq_true_eq] at hc
       have hn : abs st t id = some (r.name, r.pager, r.slack) := by simp [abs, hg, hc]
@@ -178,7 +197,7 @@ theorem step_ok {st : St} (h : Inv st) (op : Op) (hc : stepClean st op = true) :
         · simp [e] at hid
         · simp only [e, if_false] at hid; exact h.fresh id' hid
       · funext t' id'
-        simp only [specStep, Spec.delete, hn, Spec.set]
+        simp only [specNext, Spec.set]
         by_cases hid : id' = id
         · subst hid
           by_cases ht : t' = t
@@ -208,12 +227,12 @@ theorem step_ok {st : St} (h : Inv st) (op : Op) (hc : stepClean st op = true) :
         · simp [e] at hs
   | restart => exact ⟨h, rfl, by simp [step, OutOk]⟩
 
-theorem refines_of_inv (ops : List Op) : ∀ (st : St), Inv st → Clean st ops = true → Refines (abs st) st ops := by
+theorem refines_of_inv (ops : List Op) : ∀ (st : St), Inv st → OwnIds st ops = true → Refines (abs st) st ops := by
   induction ops with
   | nil => intro _ _ _; trivial
   | cons op r ih =>
     intro st h hc
-    simp only [Clean, Bool.and_eq_true] at hc
+    simp only [OwnIds, Bool.and_eq_true] at hc
     obtain ⟨h1, h2, h3⟩ := step_ok h op hc.1
     refine ⟨h3, h2, ?_⟩
     rw [← h2]; exact ih _ h1 hc.2
@@ -222,32 +241,142 @@ theorem abs_init : abs init = Spec.empty := by funext t id; simp [abs, init, AL.
 
 end Contact
 
+/-! ### alert definitions -/
+namespace AlertDB
+open SigModel.KV.AlertDB
+
+theorem mem_of_get' {K V : Type} [DecidableEq K] (l : AL K V) (k : K) (v : V) (h : l.get k = some v) : (k, v) ∈ l := by
+  induction l with
+  | nil => simp [AL.get] at h
+  | cons p r ih =>
+    obtain ⟨a, b⟩ := p
+    simp only [AL.get] at h
+    by_cases hk : a = k
+    · simp only [hk, if_true, Option.some.injEq] at h; subst h; subst hk; exact List.mem_cons_self
+    · simp only [hk, if_false] at h; exact List.mem_cons_of_mem _ (ih h)
+
+theorem not_used {alerts : AL Nat Row} {name : Key} {ex : Option Nat} (h : nameUsed alerts name ex = false)
+    (id : Nat) (r : Row) (hg : alerts.get id = some r) (hn : r.name = name) : some id = ex := by
+  unfold nameUsed at h
+  rw [List.any_eq_false] at h
+  have := h (id, r) (mem_of_get' _ _ _ hg)
+  simp only [hn, decide_true, Bool.true_and, decide_eq_true_eq, Classical.not_not] at this
+  exact this
+
+/-- no two stored alerts carry the same name -/
+def Unique (st : St) : Prop :=
+  ∀ id id' r r', st.alerts.get id = some r → st.alerts.get id' = some r' → r.name = r'.name → id = id'
+
+theorem unique_step {st : St} (h : Unique st) (op : Op) : Unique (step st op).1 := by
+  cases op with
+  | contact t name =>
+    simp only [step]; split <;> exact h
+  | create t name msg cid =>
+    simp only [step]
+    split
+    · exact h
+    · split
+      · exact h
+      · split
+        · exact h
+        · rename_i hu
+          have hu' : nameUsed st.alerts name none = false := by simpa using hu
+          intro id id' r r' hg hg' hn
+          simp only [get_put] at hg hg'
+          by_cases e : id = st.nextA <;> by_cases e' : id' = st.nextA
+          · rw [e, e']
+          · simp only [e, if_true, Option.some.injEq] at hg
+            simp only [e', if_false] at hg'
+            have := not_used hu' id' r' hg' (by rw [← hn, ← hg])
+            cases this
+          · simp only [e, if_false] at hg
+            simp only [e', if_true, Option.some.injEq] at hg'
+            have := not_used hu' id r hg (by rw [hn, ← hg'])
+            cases this
+          · simp only [e, if_false] at hg
+            simp only [e', if_false] at hg'
+            exact h id id' r r' hg hg' hn
+  | update t id0 name msg cid =>
+    simp only [step]
+    split
+    · exact h
+    · split
+      · exact h
+      · split
+        · exact h
+        · split
+          · exact h
+          · rename_i hu
+            have hu' : nameUsed st.alerts name (some id0) = false := by simpa using hu
+            intro id id' r r' hg hg' hn
+            simp only [get_put] at hg hg'
+            by_cases e : id = id0 <;> by_cases e' : id' = id0
+            · rw [e, e']
+            · simp only [e, if_true, Option.some.injEq] at hg
+              simp only [e', if_false] at hg'
+              have := not_used hu' id' r' hg' (by rw [← hn, ← hg])
+              exact absurd (Option.some.inj this) e'
+            · simp only [e, if_false] at hg
+              simp only [e', if_true, Option.some.injEq] at hg'
+              have := not_used hu' id r hg (by rw [hn, ← hg'])
+              exact absurd (Option.some.inj this) e
+            · simp only [e, if_false] at hg
+              simp only [e', if_false] at hg'
+              exact h id id' r r' hg hg' hn
+  | delete t id0 =>
+    simp only [step]
+    split
+    · exact h
+    · intro id id' r r' hg hg' hn
+      simp only [get_del] at hg hg'
+      by_cases e : id = id0
+      · simp [e] at hg
+      · by_cases e' : id' = id0
+        · simp [e'] at hg'
+        · simp only [e, if_false] at hg
+          simp only [e', if_false] at hg'
+          exact h id id' r r' hg hg' hn
+  | get t id0 => simp only [step]; split <;> exact h
+  | list t => exact h
+  | restart => exact h
+
+theorem unique_run (ops : List Op) : ∀ (st : St), Unique st → Unique (run st ops).1 := by
+  induction ops with
+  | nil => intro st h; exact h
+  | cons op r ih => intro st h; simp only [run]; exact ih _ (unique_step h op)
+
+theorem unique_init : Unique init := by intro id id' r r' hg; simp [init, AL.get] at hg
+
+end AlertDB
+
 /-! ### dashboards / folders -/
 namespace Dash
 open SigModel.KV.Dash
 
-theorem getDash_fs (st : St) (t id : Nat) : (getDash st t id).1.fs = st.fs := by
-  unfold getDash
-  cases st.det.get id with
-  | none => rfl
-  | some d =>
-    simp only
-    cases (st.fs t).items.get id with
+theorem getDashG_fs (old : Bool) (st : St) (t id : Nat) : (getDashG old st t id).1.fs = st.fs := by
+  unfold getDashG
+  split
+  · rfl
+  · cases st.det.get id with
     | none => rfl
-    | some it =>
+    | some d =>
       simp only
-      cases it.parent with
+      cases (st.fs t).items.get id with
       | none => rfl
-      | some fid =>
+      | some it =>
         simp only
-        cases (st.fs t).items.get fid with
+        cases it.parent with
         | none => rfl
-        | some p =>
+        | some fid =>
           simp only
-          split <;> rfl
+          cases (st.fs t).items.get fid with
+          | none => rfl
+          | some p =>
+            simp only
+            split <;> rfl
 
-theorem listFold_fs (fs0 : FS) (t : Nat) (items : List (Nat × Item)) :
-    ∀ (acc : St × List Row), (listFold fs0 t items acc).1.fs = acc.1.fs := by
+theorem listFold_fs (old : Bool) (fs0 : FS) (t : Nat) (items : List (Nat × Item)) :
+    ∀ (acc : St × List Row), (listFold old fs0 t items acc).1.fs = acc.1.fs := by
   induction items with
   | nil => intro acc; rfl
   | cons e r ih =>
@@ -257,38 +386,41 @@ theorem listFold_fs (fs0 : FS) (t : Nat) (items : List (Nat × Item)) :
     unfold listRow
     by_cases h0 : e.1 = 0
     · simp [h0]
-    · simp only [h0, if_false]; exact getDash_fs acc.1 t e.1
+    · simp only [h0, if_false]; exact getDashG_fs old acc.1 t e.1
 
-/-- an operation of tenant `t` leaves the folder structure of every other tenant untouched -/
-theorem fs_frame (st : St) (op : Op) (t : Nat) (ht : op.tenant = some t) (t' : Nat) (hne : t' ≠ t) :
-    (step st op).1.fs t' = st.fs t' := by
+/-- an operation of tenant `t` leaves the folder structure of every other tenant untouched (old and
+patched behaviour alike) -/
+theorem fs_frame (old : Bool) (st : St) (op : Op) (t : Nat) (ht : op.tenant = some t) (t' : Nat) (hne : t' ≠ t) :
+    (stepG old st op).1.fs t' = st.fs t' := by
   cases op with
   | createDash t0 name payload parent =>
     simp only [Op.tenant, Option.some.injEq] at ht; subst ht
-    simp only [step]
+    simp only [stepG]
     repeat' split
     all_goals first | rfl | simp [upd, hne]
   | createFolder t0 name parent =>
     simp only [Op.tenant, Option.some.injEq] at ht; subst ht
-    simp only [step]
+    simp only [stepG]
     repeat' split
     all_goals first | rfl | simp [upd, hne]
   | updateDash t0 id name payload newParent =>
     simp only [Op.tenant, Option.some.injEq] at ht; subst ht
-    simp only [step]
+    simp only [stepG]
     split
     · rfl
     · split
       · rfl
-      · simp [upd, hne]
+      · split
+        · rfl
+        · simp [upd, hne]
   | updateFolder t0 id name newParent =>
     simp only [Op.tenant, Option.some.injEq] at ht; subst ht
-    simp only [step]
+    simp only [stepG]
     repeat' split
     all_goals first | rfl | simp [setFS, upd, hne]
   | deleteDash t0 id =>
     simp only [Op.tenant, Option.some.injEq] at ht; subst ht
-    simp only [step]
+    simp only [stepG]
     split
     · rfl
     · split
@@ -296,26 +428,372 @@ theorem fs_frame (st : St) (op : Op) (t : Nat) (ht : op.tenant = some t) (t' : N
       · simp [upd, hne]
   | deleteFolder t0 id =>
     simp only [Op.tenant, Option.some.injEq] at ht; subst ht
-    simp only [step]
+    simp only [stepG]
     split
     · rfl
     · split
       · rfl
       · simp [upd, hne]
   | getDash t0 id =>
-    simp only [step]
-    have := getDash_fs st t0 id
+    simp only [stepG]
+    have := getDashG_fs old st t0 id
     split <;> simp_all
   | contents t0 id =>
-    simp only [step]
+    simp only [stepG]
     split <;> rfl
   | list t0 =>
-    simp only [step]
+    simp only [stepG]
     rw [listFold_fs]
   | favorite t0 id =>
-    simp only [step]
-    split <;> rfl
+    simp only [stepG]
+    split
+    · rfl
+    · split <;> rfl
   | restart => rfl
+
+/-! #### the details files: which ids an operation can touch -/
+
+theorem ownsDash_get {st : St} {t id : Nat} (h : ownsDash st t id = true) : (st.fs t).items.get id ≠ none := by
+  unfold ownsDash at h
+  cases hg : (st.fs t).items.get id with
+  | none => simp [hg] at h
+  | some it => simp
+
+theorem getDash_effect (st : St) (t id : Nat) :
+    (getDashG false st t id).1.next = st.next ∧
+    ∀ y, (getDashG false st t id).1.det.get y = st.det.get y ∨ (st.fs t).items.get y ≠ none := by
+  unfold getDashG
+  by_cases ho : ownsDash st t id = true
+  · simp only [ho, Bool.not_false, Bool.not_true, Bool.and_false, Bool.false_eq_true, if_false]
+    cases st.det.get id with
+    | none => exact ⟨rfl, fun _ => Or.inl rfl⟩
+    | some d =>
+      simp only
+      cases (st.fs t).items.get id with
+      | none => exact ⟨rfl, fun _ => Or.inl rfl⟩
+      | some it =>
+        simp only
+        cases it.parent with
+        | none => exact ⟨rfl, fun _ => Or.inl rfl⟩
+        | some fid =>
+          simp only
+          cases (st.fs t).items.get fid with
+          | none => exact ⟨rfl, fun _ => Or.inl rfl⟩
+          | some p =>
+            simp only
+            split
+            · exact ⟨rfl, fun _ => Or.inl rfl⟩
+            · refine ⟨rfl, fun y => ?_⟩
+              simp only [get_put]
+              by_cases e : y = id
+              · subst e; exact Or.inr (ownsDash_get ho)
+              · simp [e]
+  · simp only [Bool.not_eq_true] at ho
+    simp [ho]
+
+theorem listFold_effect (fs0 : FS) (t : Nat) (items : List (Nat × Item)) :
+    ∀ (acc : St × List Row),
+      (listFold false fs0 t items acc).1.next = acc.1.next ∧
+      ∀ y, (listFold false fs0 t items acc).1.det.get y = acc.1.det.get y ∨ (acc.1.fs t).items.get y ≠ none := by
+  induction items with
+  | nil => intro acc; exact ⟨rfl, fun _ => Or.inl rfl⟩
+  | cons e r ih =>
+    intro acc
+    simp only [listFold, List.foldl_cons] at ih ⊢
+    obtain ⟨h1, h2⟩ := ih (listRow false fs0 t acc e)
+    have hrow : (listRow false fs0 t acc e).1.next = acc.1.next ∧ (listRow false fs0 t acc e).1.fs = acc.1.fs ∧
+        ∀ y, (listRow false fs0 t acc e).1.det.get y = acc.1.det.get y ∨ (acc.1.fs t).items.get y ≠ none := by
+      unfold listRow
+      by_cases h0 : e.1 = 0
+      · simp [h0]
+      · simp only [h0, if_false]
+        exact ⟨(getDash_effect acc.1 t e.1).1, getDashG_fs false acc.1 t e.1, (getDash_effect acc.1 t e.1).2⟩
+    refine ⟨h1.trans hrow.1, fun y => ?_⟩
+    rcases h2 y with h | h
+    · rcases hrow.2.2 y with h' | h'
+      · exact Or.inl (h.trans h')
+      · exact Or.inr h'
+    · rw [hrow.2.1] at h; exact Or.inr h
+
+theorem get_foldl_del {V : Type} (dead : List Nat) : ∀ (m : AL Nat V) (y : Nat),
+    (dead.foldl (fun m x => m.del x) m).get y ≠ none → m.get y ≠ none := by
+  induction dead with
+  | nil => intro m y h; exact h
+  | cons x r ih =>
+    intro m y h
+    have := ih (m.del x) y h
+    rw [get_del] at this
+    by_cases e : y = x
+    · simp [e] at this
+    · simpa [e] using this
+
+theorem det_foldl_del (fs : FS) (dead : List Nat) : ∀ (d : AL Nat Det) (y : Nat),
+    (dead.foldl (fun d x => match fs.items.get x with
+        | some ix => if ix.ty = .dash then d.del x else d
+        | none => d) d).get y = d.get y ∨ fs.items.get y ≠ none := by
+  induction dead with
+  | nil => intro d y; exact Or.inl rfl
+  | cons x r ih =>
+    intro d y
+    simp only [List.foldl_cons]
+    cases hg : fs.items.get x with
+    | none => simpa [hg] using ih d y
+    | some ix =>
+      simp only
+      by_cases hty : ix.ty = .dash
+      · simp only [hty, if_true]
+        rcases ih (d.del x) y with h | h
+        · rw [h, get_del]
+          by_cases e : y = x
+          · subst e; right; rw [hg]; simp
+          · left; simp [e]
+        · exact Or.inr h
+      · simp only [hty, if_false]; exact ih d y
+
+/-- what one operation of tenant `t` can do to the id generator, to the ids of `t`'s folder structure and to
+the details files: new ids come from the generator, details change only at the new id or at ids of `t` -/
+structure Effect (st : St) (t : Nat) (st' : St) : Prop where
+  next_le : st.next ≤ st'.next
+  ids : ∀ id, (st'.fs t).items.get id ≠ none → (st.fs t).items.get id ≠ none ∨ (id = st.next ∧ st'.next = st.next + 1)
+  det : ∀ id, st'.det.get id = st.det.get id ∨ id = st.next ∨ (st.fs t).items.get id ≠ none
+
+theorem effect_refl (st : St) (t : Nat) : Effect st t st :=
+  ⟨Nat.le_refl _, fun _ h => Or.inl h, fun _ => Or.inl rfl⟩
+
+theorem step_effect (st : St) (op : Op) (t : Nat) (ht : op.tenant = some t) : Effect st t (step st op).1 := by
+  cases op with
+  | createDash t0 name payload parent =>
+    simp only [Op.tenant, Option.some.injEq] at ht; subst ht
+    simp only [step, stepG]
+    repeat' split
+    all_goals first
+      | exact effect_refl st t0
+      | (refine ⟨Nat.le_succ _, fun id h => ?_, fun id => ?_⟩
+         · simp only [upd, if_true, get_put] at h
+           by_cases e : id = st.next
+           · exact Or.inr ⟨e, rfl⟩
+           · simp only [e, if_false] at h; exact Or.inl h
+         · simp only [get_put]
+           by_cases e : id = st.next
+           · exact Or.inr (Or.inl e)
+           · simp [e])
+  | createFolder t0 name parent =>
+    simp only [Op.tenant, Option.some.injEq] at ht; subst ht
+    simp only [step, stepG]
+    repeat' split
+    all_goals first
+      | exact effect_refl st t0
+      | (refine ⟨Nat.le_succ _, fun id h => ?_, fun id => Or.inl rfl⟩
+         simp only [upd, if_true, get_put] at h
+         by_cases e : id = st.next
+         · exact Or.inr ⟨e, rfl⟩
+         · simp only [e, if_false] at h; exact Or.inl h)
+  | updateDash t0 id0 name payload newParent =>
+    simp only [Op.tenant, Option.some.injEq] at ht; subst ht
+    simp only [step, stepG]
+    split
+    · exact effect_refl st t0
+    · rename_i it hg
+      split
+      · exact effect_refl st t0
+      · split
+        · exact effect_refl st t0
+        · rename_i r fs1 it1 heq
+          have hit : ∀ y, fs1.items.get y ≠ none → (st.fs t0).items.get y ≠ none := by
+            revert heq
+            repeat' split
+            all_goals
+              intro heq
+              first
+                | (cases heq; done)
+                | (cases heq; intro y hy
+                   first
+                     | exact hy
+                     | (simp only [get_put] at hy
+                        by_cases e : y = id0
+                        · subst e; rw [hg]; simp
+                        · simp only [e, if_false] at hy; exact hy))
+          refine ⟨Nat.le_refl _, fun id h => ?_, fun id => ?_⟩
+          · left
+            simp only [upd, if_true] at h
+            split at h
+            · simp only [get_put] at h
+              by_cases e : id = id0
+              · subst e; rw [hg]; simp
+              · simp only [e, if_false] at h; exact hit id h
+            · exact hit id h
+          · simp only [get_put]
+            by_cases e : id = id0
+            · subst e; right; right; rw [hg]; simp
+            · simp [e]
+  | updateFolder t0 id0 name newParent =>
+    simp only [Op.tenant, Option.some.injEq] at ht; subst ht
+    simp only [step, stepG]
+    split
+    · exact effect_refl st t0
+    · split
+      · exact effect_refl st t0
+      · rename_i it hg
+        split
+        · exact effect_refl st t0
+        · split
+          · exact effect_refl st t0
+          · rename_i r fs1 it1 heq
+            have hit : fs1.items = (st.fs t0).items := by
+              revert heq
+              repeat' split
+              all_goals
+                intro heq
+                first
+                  | (cases heq; done)
+                  | (cases heq; rfl)
+            repeat' split
+            all_goals first
+              | exact effect_refl st t0
+              | (refine ⟨Nat.le_refl _, fun id h => ?_, fun id => Or.inl rfl⟩
+                 simp only [setFS, upd, if_true, get_put, hit] at h
+                 by_cases e : id = id0
+                 · subst e; left; rw [hg]; simp
+                 · simp only [e, if_false] at h; exact Or.inl h)
+  | deleteDash t0 id0 =>
+    simp only [Op.tenant, Option.some.injEq] at ht; subst ht
+    simp only [step, stepG]
+    split
+    · exact effect_refl st t0
+    · rename_i it hg
+      split
+      · exact effect_refl st t0
+      · refine ⟨Nat.le_refl _, fun id h => ?_, fun id => ?_⟩
+        · simp only [upd, if_true, get_del] at h
+          by_cases e : id = id0
+          · simp [e] at h
+          · simp only [e, if_false] at h; exact Or.inl h
+        · simp only [get_del]
+          by_cases e : id = id0
+          · subst e; right; right; rw [hg]; simp
+          · simp [e]
+  | deleteFolder t0 id0 =>
+    simp only [Op.tenant, Option.some.injEq] at ht; subst ht
+    simp only [step, stepG]
+    split
+    · exact effect_refl st t0
+    · split
+      · exact effect_refl st t0
+      · refine ⟨Nat.le_refl _, fun id h => ?_, fun id => ?_⟩
+        · simp only [upd, if_true] at h
+          exact Or.inl (get_foldl_del _ _ _ h)
+        · exact (det_foldl_del (st.fs t0) _ st.det id).elim Or.inl (fun h => Or.inr (Or.inr h))
+  | getDash t0 id0 =>
+    simp only [Op.tenant, Option.some.injEq] at ht; subst ht
+    have he := getDash_effect st t0 id0
+    have hf := getDashG_fs false st t0 id0
+    have : Effect st t0 (getDashG false st t0 id0).1 :=
+      ⟨Nat.le_of_eq he.1.symm, fun id h => by rw [hf] at h; exact Or.inl h,
+       fun id => (he.2 id).elim Or.inl (fun h => Or.inr (Or.inr h))⟩
+    simp only [step, stepG]
+    split <;> simp_all
+  | contents t0 id0 =>
+    simp only [step, stepG]
+    split <;> exact effect_refl st t
+  | list t0 =>
+    simp only [Op.tenant, Option.some.injEq] at ht; subst ht
+    simp only [step, stepG]
+    have he := listFold_effect (st.fs t0) t0 (st.fs t0).items (st, [])
+    have hf := listFold_fs false (st.fs t0) t0 (st.fs t0).items (st, [])
+    exact ⟨Nat.le_of_eq he.1.symm, fun id h => by rw [hf] at h; exact Or.inl h,
+      fun id => (he.2 id).elim Or.inl (fun h => Or.inr (Or.inr h))⟩
+  | favorite t0 id0 =>
+    simp only [Op.tenant, Option.some.injEq] at ht; subst ht
+    simp only [step, stepG]
+    split
+    · exact effect_refl st t0
+    · rename_i ho
+      simp only [Bool.not_false, Bool.true_and, Bool.not_eq_true', Bool.not_eq_false] at ho
+      split
+      · exact effect_refl st t0
+      · refine ⟨Nat.le_refl _, fun id h => Or.inl h, fun id => ?_⟩
+        simp only [get_put]
+        by_cases e : id = id0
+        · subst e; exact Or.inr (Or.inr (ownsDash_get ho))
+        · simp [e]
+  | restart => exact effect_refl st t
+
+/-- ids come from one generator: every id in a folder structure is below it, and no id other than the root
+is in the structures of two tenants -/
+structure Inv (st : St) : Prop where
+  fresh : ∀ t id, (st.fs t).items.get id ≠ none → id < st.next
+  disjoint : ∀ t t' id, t ≠ t' → id ≠ 0 → (st.fs t).items.get id ≠ none → (st.fs t').items.get id = none
+
+theorem items_init (t id : Nat) (h : ((init.fs t).items.get id) ≠ none) : id = 0 := by
+  simp only [init, initFS, AL.get] at h
+  by_cases e : 0 = id
+  · exact e.symm
+  · simp [e] at h
+
+theorem inv_init : Inv init :=
+  ⟨fun t id h => by rw [items_init t id h]; exact Nat.zero_lt_one,
+   fun t _ id _ hid h => absurd (items_init t id h) hid⟩
+
+theorem inv_step {st : St} (h : Inv st) (op : Op) : Inv (step st op).1 := by
+  cases hten : op.tenant with
+  | none => cases op <;> simp [Op.tenant] at hten; exact h
+  | some t =>
+    have eff := step_effect st op t hten
+    have frame := fun t' (hne : t' ≠ t) => fs_frame false st op t hten t' hne
+    have nofresh : ∀ t1, (st.fs t1).items.get st.next = none := by
+      intro t1
+      cases hg : (st.fs t1).items.get st.next with
+      | none => rfl
+      | some it => exact absurd (h.fresh t1 st.next (by rw [hg]; simp)) (Nat.lt_irrefl _)
+    refine ⟨?_, ?_⟩
+    · intro t1 id hid
+      by_cases e : t1 = t
+      · subst e
+        rcases eff.ids id hid with h1 | ⟨h1, h2⟩
+        · exact Nat.lt_of_lt_of_le (h.fresh t1 id h1) eff.next_le
+        · show id < (step st op).1.next
+          rw [h1, h2]; exact Nat.lt_succ_self _
+      · have : (step st op).1.fs t1 = st.fs t1 := frame t1 e
+        rw [show (step st op).1.fs t1 = st.fs t1 from this] at hid
+        exact Nat.lt_of_lt_of_le (h.fresh t1 id hid) eff.next_le
+    · intro t1 t2 id hne hid hg
+      by_cases e1 : t1 = t
+      · subst e1
+        have e2 : t2 ≠ t1 := fun e => hne e.symm
+        rw [show (step st op).1.fs t2 = st.fs t2 from frame t2 e2]
+        rcases eff.ids id hg with h1 | ⟨h1, _⟩
+        · exact h.disjoint t1 t2 id hne hid h1
+        · rw [h1]; exact nofresh t2
+      · rw [show (step st op).1.fs t1 = st.fs t1 from frame t1 e1] at hg
+        by_cases e2 : t2 = t
+        · subst e2
+          cases hg2 : ((step st op).1.fs t2).items.get id with
+          | none => rfl
+          | some it =>
+            exfalso
+            rcases eff.ids id (by rw [hg2]; simp) with h1 | ⟨h1, _⟩
+            · have := h.disjoint t2 t1 id (fun e => hne e.symm) hid h1
+              exact hg this
+            · rw [h1, nofresh t1] at hg; exact hg rfl
+        · rw [show (step st op).1.fs t2 = st.fs t2 from frame t2 e2]
+          exact h.disjoint t1 t2 id hne hid hg
+
+theorem inv_run (ops : List Op) : ∀ (st : St), Inv st → Inv (run st ops).1 := by
+  induction ops with
+  | nil => intro st h; exact h
+  | cons op r ih =>
+    intro st h
+    show Inv (runG false (stepG false st op).1 r).1
+    exact ih _ (inv_step h op)
+
+/-- the details file of another tenant's object is not touched -/
+theorem det_frame {st : St} (h : Inv st) (op : Op) (t : Nat) (ht : op.tenant = some t) (t' : Nat) (hne : t' ≠ t)
+    (id : Nat) (hid : id ≠ 0) (hown : (st.fs t').items.get id ≠ none) :
+    (step st op).1.det.get id = st.det.get id := by
+  rcases (step_effect st op t ht).det id with h1 | h1 | h1
+  · exact h1
+  · exact absurd (h.fresh t' id hown) (by rw [h1]; exact Nat.lt_irrefl _)
+  · exact absurd (h.disjoint t t' id (fun e => hne e.symm) hid h1) hown
 
 end Dash
 
